@@ -1,0 +1,17 @@
+//go:build verif
+
+package tsm1
+
+import "sync/atomic"
+
+var verifPointFn atomic.Value // func(name, path string)
+
+// VerifSetPointFn installs the callback invoked at named durable steps of the engine
+// (build tag "verif" only).  path is the shard's data directory.
+func VerifSetPointFn(f func(name, path string)) { verifPointFn.Store(f) }
+
+func verifPoint(name, path string) {
+	if f, ok := verifPointFn.Load().(func(string, string)); ok && f != nil {
+		f(name, path)
+	}
+}
